@@ -21,7 +21,7 @@ ID = 'C07'
 LEVEL = 'exploration'
 
 F = ['a', 'aa', '\\a', '\\61 ', '\\aa', '"', "'", ',', ' ', '\n', '/*', '*/', '*', '/**/', ' /**/', '-', '--', '[', ']', '=', '(', ')', '|',
-     'n', '1', '+', ' of ', 'aa,', '0', '.', ':', 'T', 'W', '-*', '\\', '\\\n', '"a', 'é', '\r\n', '\r', '\f', '\t', '\r\n ',
+     'n', '1', '+', ' of ', 'aa,', '0', '.', ':', 'T', 'W', '-*', '\\', '\\\n', '"a', 'é', '\r\n', '\r', '\f', '\t', '\r\n ', '\\\f', '\\\r', '\\\r\n', '\\\t',
      '[a=', '[a="', "[a='", ':lang(', ':-soup-contains(', ':nth-child(', ':is(', ':not(', '#', '.a', ':a', '::a', '@a']
 FV = ['a', 'b', ' ', '-', 'ab', 'a ', ' a', '\n', '\t', 'g', 'g ', ' g', 'G', '-g']
 SEL_VALUES = ['g', 'a', 'a b', 'ab', '-', ' ']
